@@ -215,6 +215,7 @@ def gen_spec(rng, pairing=None, small=False, allow_tiering=False,
         spec["planning"] = "static"
         spec["scheduling"] = {"kind": pairing}
         spec["static_seed"] = rng.randint(0, 10 ** 6)
+        spec["static_unsorted"] = rng.random() < 0.5      # plan.tasks in topological rather than est order
     if rng.random() < 0.35:
         spec["delay"] = {"prob": rng.choice([0.0, 0.3, 0.7, 1.0]),
                          "degree": rng.choice(["LOW", "MID", "HIGH"]),
